@@ -8,6 +8,7 @@ package c11
 import (
 	"context"
 	"encoding/json"
+	"errors"
 	"fmt"
 	"os"
 	"regexp"
@@ -64,7 +65,14 @@ type Case struct {
 	Budget  int               `json:"budget,omitempty"`  // open budget; 0 = openBudget
 	Special string            `json:"special,omitempty"` // name of a non-describable value bound to "v" (or used as root with RootIsV)
 	RootIsV bool              `json:"root_is_v,omitempty"`
+	// Redo: after the first render the SAME engine renders again - with the files changed
+	// underneath as named here - and a third time with the original files restored; every one
+	// of the three calls has to return.
+	Redo string `json:"redo,omitempty"`
 }
+
+// redos: what happens to the files between the first and the second render on one engine.
+var redos = []string{"same", "delete-page", "delete-others", "delete-all", "garbage-page", "open-fails", "touch", "empty-page"}
 
 // ---- special values that vals cannot describe
 
@@ -108,6 +116,20 @@ type mapPtrC struct {
 type arrC struct {
 	Name string
 	Pair [2]*arrC
+}
+
+// a struct that embeds a nil pointer: its promoted fields are reachable by name only through it
+type BaseE struct {
+	CreatedBy string
+	ID        int
+}
+type prodE struct {
+	*BaseE
+	Title string `json:"title"`
+}
+type wrapE struct {
+	Inner prodE // by value, inside it the nil embedded pointer
+	Name  string
 }
 
 type withPriv struct {
@@ -176,6 +198,16 @@ func special(name string) any {
 		p := &pageV{Title: "t"}
 		p.Meta = metaV{Owner: p}
 		return *p
+	case "embedded-nil-ptr":
+		return prodE{Title: "t"}
+	case "embedded-nil-ptr-ptr":
+		return &prodE{Title: "t"}
+	case "slice-of-embedded-nil-ptr":
+		return []prodE{{BaseE: &BaseE{CreatedBy: "ann", ID: 1}, Title: "first"}, {Title: "second"}}
+	case "map-of-embedded-nil-ptr":
+		return map[string]any{"a": prodE{Title: "t"}, "k": &prodE{Title: "u"}, "Inner": wrapE{Name: "w"}}
+	case "wrapped-embedded-nil-ptr":
+		return wrapE{Name: "w"}
 	case "unexported":
 		return withPriv{Name: "n", priv: "p", in: &withPriv{Name: "in"}}
 	case "unexported-ptr":
@@ -227,7 +259,7 @@ func special(name string) any {
 // Not in the domain: a map[string]any or []any that contains ITSELF. Printing such a value
 // overflows the stack inside the standard library's fmt (as in any Go program); pointer cycles
 // between structs - the realistic shape of cyclic data - are covered.
-var specials = []string{"cyclic-ptr", "cyclic-2", "cyclic-in-map", "cyclic-via-value-field", "cyclic-via-value-slice", "cyclic-via-interface", "cyclic-via-embedded", "cyclic-via-map-of-ptr", "cyclic-via-array", "cyclic-value-root", "unexported", "unexported-ptr", "map-int-keys", "map-struct-keys", "map-any-keys", "func", "chan", "stringer", "typed-nil-ptr", "typed-nil-map", "typed-nil-slice", "nested-ptr", "array-of-struct", "slice-of-nil", "big-uint", "complex", "bytes", "error", "deep"}
+var specials = []string{"cyclic-ptr", "cyclic-2", "cyclic-in-map", "cyclic-via-value-field", "cyclic-via-value-slice", "cyclic-via-interface", "cyclic-via-embedded", "cyclic-via-map-of-ptr", "cyclic-via-array", "cyclic-value-root", "embedded-nil-ptr", "embedded-nil-ptr-ptr", "slice-of-embedded-nil-ptr", "map-of-embedded-nil-ptr", "wrapped-embedded-nil-ptr", "unexported", "unexported-ptr", "map-int-keys", "map-struct-keys", "map-any-keys", "func", "chan", "stringer", "typed-nil-ptr", "typed-nil-map", "typed-nil-slice", "nested-ptr", "array-of-struct", "slice-of-nil", "big-uint", "complex", "bytes", "error", "deep"}
 
 func dataOf(c Case) any {
 	m := map[string]any{}
@@ -296,19 +328,65 @@ func checkNow(c Case) (err error) {
 	data := dataOf(c)
 	ctx := context.Background()
 	opts := []vuego.LoadOption{vuego.WithFuncs(cat.Funcs()), vuego.WithComponents()}
+	var root vuego.Template
+	var vue *vuego.Vue
 	switch c.Entry {
-	case "load":
-		_ = vuego.NewFS(fsys, opts...).Load("page.vuego").Fill(data).Render(ctx, w)
-	case "file":
-		_ = vuego.NewFS(fsys, opts...).Fill(data).RenderFile(ctx, w, "page.vuego")
-	case "string":
-		_ = vuego.NewFS(fsys, opts...).Fill(data).RenderString(ctx, w, c.Files["page.vuego"])
-	case "vue":
-		_ = vuego.NewVue(fsys).Funcs(cat.Funcs()).Render(w, "page.vuego", data)
-	case "frag":
-		_ = vuego.NewVue(fsys).Funcs(cat.Funcs()).RenderFragment(w, "page.vuego", data)
+	case "load", "file", "string":
+		root = vuego.NewFS(fsys, opts...)
+	case "vue", "frag":
+		vue = vuego.NewVue(fsys).Funcs(cat.Funcs())
 	default:
 		return fmt.Errorf("unknown entry %q", c.Entry)
+	}
+	renderOnce := func() {
+		switch c.Entry {
+		case "load":
+			_ = root.Load("page.vuego").Fill(data).Render(ctx, w)
+		case "file":
+			_ = root.New().Fill(data).RenderFile(ctx, w, "page.vuego")
+		case "string":
+			_ = root.New().Fill(data).RenderString(ctx, w, c.Files["page.vuego"])
+		case "vue":
+			_ = vue.Render(w, "page.vuego", data)
+		case "frag":
+			_ = vue.RenderFragment(w, "page.vuego", data)
+		}
+	}
+	renderOnce()
+	if c.Redo != "" {
+		later := time.Unix(1_900_000_000, 0)
+		switch c.Redo {
+		case "delete-page":
+			fsys.Remove("page.vuego")
+		case "delete-others":
+			for name := range c.Files {
+				if name != "page.vuego" {
+					fsys.Remove(name)
+				}
+			}
+		case "delete-all":
+			for name := range c.Files {
+				fsys.Remove(name)
+			}
+		case "garbage-page":
+			fsys.Write("page.vuego", "---\nlayout: [unclosed\n---\n<<{{ }}{{ | }}<template include=\"page.vuego\"><p v-for=\"in\" v-if=\")(\">", later)
+		case "empty-page":
+			fsys.Write("page.vuego", "", later)
+		case "open-fails":
+			for name := range c.Files {
+				fsys.FailOpen(name, errors.New("input/output error"))
+			}
+		case "touch":
+			for name, src := range c.Files {
+				fsys.Write(name, src, later)
+			}
+		}
+		renderOnce()
+		for name, src := range c.Files {
+			fsys.FailOpen(name, nil)
+			fsys.Write(name, src, later.Add(time.Hour))
+		}
+		renderOnce()
 	}
 	if fsys.Runaway() {
 		if fanOutCycle(c.Files) {
@@ -355,6 +433,7 @@ var positions = []string{
 	`<my-comp :p="v"></my-comp>`,
 	`<p>{{ v | file }}</p>`,
 	`<p v-once>{{ v }}</p><p v-pre>{{ v }}</p>`,
+	`<p>{{ v.CreatedBy }} {{ v.ID }} {{ v.title }} {{ v.BaseE }} {{ v.BaseE.CreatedBy }} {{ v.Inner.CreatedBy }} {{ v.a.CreatedBy }} {{ v.k.ID }}</p><i v-for="x in v">{{ x.CreatedBy }} {{ x.title }} {{ x.ID }}</i><b v-if="v.CreatedBy">c</b><u :title="v.ID" v-show="v.Inner.ID">u</u>`,
 }
 
 func dataCase(pos string, val vals.V, sp string, rootIsV bool, entry string) Case {
@@ -495,6 +574,9 @@ func genHostile(t *rapid.T) Case {
 		"layouts/base.vuego":      rapid.SampledFrom([]string{`<html><body v-html="content"></body></html>`, `<slot name="s"></slot><div v-html="content"></div>`, "---\nlayout: base\n---\n<p>{{ content }}</p>"}).Draw(t, "lay"),
 	}, Entry: rapid.SampledFrom(entries).Draw(t, "entry"), Budget: hostileBudget,
 		Data: map[string]vals.V{"a": vals.Str("A"), "b": vals.Int(0), "yes": vals.Bool(true), "xs": vals.List("[]any", vals.Int(1), vals.Str("two"), vals.Map(map[string]vals.V{"k": vals.Str("v")}))}}
+	if rapid.IntRange(0, 3).Draw(t, "redo?") == 0 {
+		c.Redo = rapid.SampledFrom(redos).Draw(t, "redo")
+	}
 	return c
 }
 
@@ -597,6 +679,12 @@ func classify(c Case) (bool, []string) {
 	if c.RootIsV {
 		cls = append(cls, "value-as-root-data")
 	}
+	if c.Redo != "" {
+		cls = append(cls, "redo="+c.Redo)
+	}
+	if strings.Contains(c.Special, "embedded-nil") {
+		cls = append(cls, "embedded-nil-pointer")
+	}
 	if strings.Contains(page, "layout:") {
 		cls = append(cls, "has-layout")
 	}
@@ -643,7 +731,7 @@ func TestProp(t *testing.T) {
 		}
 	}
 	// values as the ROOT data (Fill(v) / Render(..., v))
-	rootTpl := `<p>{{ Name }} {{ name }} {{ Next.Name }} {{ a }} {{ self.name }} {{ priv }}</p><i v-for="k in Kids">{{ k.Name }}</i><b v-if="Name == 'n'">{{ Name + '!' }}</b>`
+	rootTpl := `<p>{{ Name }} {{ name }} {{ Next.Name }} {{ a }} {{ self.name }} {{ priv }} {{ CreatedBy }} {{ ID }} {{ Inner.CreatedBy }}</p><i v-for="k in Kids">{{ k.Name }}</i><b v-if="Name == 'n'">{{ Name + '!' }}</b>`
 	for _, e := range entries {
 		for _, v := range all {
 			c := dataCase(rootTpl, v, "", true, e)
@@ -711,6 +799,22 @@ func TestProp(t *testing.T) {
 		for _, e := range entries {
 			c := Case{Files: files, Entry: e, Data: map[string]vals.V{"a": vals.Str("<b>A</b>"), "b": vals.Int(0), "yes": vals.Bool(true), "xs": vals.List("[]any", vals.Int(1), vals.Str("two"))}}
 			each("tricky", c, "family=tricky")
+		}
+	}
+
+	// family 4: one engine renders, the files change underneath, it renders again, the files
+	// come back, it renders a third time - every catalogue program x entry point x change
+	ri := 0
+	for _, p := range cat.All() {
+		for _, e := range entries {
+			for _, rd := range redos {
+				ri++
+				if !run.Thorough() && ri%3 != 0 {
+					continue
+				}
+				c := Case{Files: p.Files, Entry: e, Redo: rd, Data: map[string]vals.V{"who": vals.Str("w"), "items": vals.List("[]any", vals.Int(1), vals.Str("two")), "yes": vals.Bool(true)}}
+				each("redo", c, "family=redo")
+			}
 		}
 	}
 
